@@ -1793,6 +1793,7 @@ theorem C18_pin_skeleton : FactsC18.skeleton = [
   ("v1.SemaDBHandlers.HandleSearchPoints", "if len(req.Vector) != int(collection.IndexSchema[\"vector\"].VectorVamana.VectorSize)"),
   ("v1.SemaDBHandlers.HandleSearchPoints", "if err != nil"),
   ("v1.SemaDBHandlers.HandleSearchPoints", "if sp.Distance != nil"),
+  ("utils.DecodeValid", "if rec != nil"),
   ("utils.DecodeValid", "switch ctype"),
   ("utils.DecodeValid", "case \"application/json\""),
   ("utils.DecodeValid", "case \"application/msgpack\""),
